@@ -15,7 +15,9 @@
     encoding of the object the library produced."""
 import json
 import random
+import resource
 import time
+from collections import Counter
 
 import numpy as np
 
@@ -239,13 +241,34 @@ def replay(inst, hist, stats, texts):
                         except Exception as e:      # pylint: disable=broad-except
                             eq = False
                             stats.setdefault("equal_raised", {}).setdefault(type(root).__name__, f"{type(e).__name__}: {e}"[:160])
-            cells = [sorted(ren(i) for i in S.cell_graph(n)) for n in nodes]
+            graphs = [S.cell_graph(n) for n in nodes]
+            cells = [sorted(ren(i) for i in gr) for gr in graphs]
             post = list(contents)
+            note = ""
+            if act == "deep" and new is not None:
+                sh = set(graphs[s - 1]) & set(graphs[-1])
+                if sh:
+                    note = S.classify_cells(src, [(i, graphs[s - 1][i]) for i in sh])
+            elif act == "mutate":
+                note = S.classify_cells(src, [pc])
+            elif act == "bind":
+                note = S.wrapper_features(src)
             events.append({"act": act, "src": s, "dst": len(nodes) if new is not None else (s if act == "mutate" else 0),
                            "pre": [intern(c) for c in pre], "post": [intern(c) for c in post],
-                           "cells": cells, "newp": newp_tok, "eq": eq, "exc": exc, "mc": mc, "prov": [dict(p) for p in prov]})
-            info.append({"act": act, "src": s, "arg": arg, "new": new, "variant": var[-1] if new is not None else None,
-                         "pre_src": pre[s - 1], "post_dst": post[-1] if new is not None else None})
+                           "cells": cells, "newp": newp_tok, "eq": eq, "exc": exc, "mc": mc, "prov": [dict(p) for p in prov], "note": note})
+            enc = None
+            if new is not None and inst.table is not None:         # exact-semantics side: encode NOW (later steps may write in place)
+                try:
+                    enc = encode_op(new, wire_positions(inst.table["labels"]), S.M)
+                except OffLattice as e:
+                    stats["sem_unencodable"] += 1
+                    stats.setdefault("sem_unencodable_why", {}).setdefault(str(e)[:80], 0)
+                    stats["sem_unencodable_why"][str(e)[:80]] += 1
+                except Exception as e:      # pylint: disable=broad-except
+                    stats["sem_unencodable"] += 1
+                    stats.setdefault("sem_unencodable_why", {}).setdefault(f"{type(e).__name__}: {e}"[:80], 0)
+                    stats["sem_unencodable_why"][f"{type(e).__name__}: {e}"[:80]] += 1
+            info.append({"act": act, "src": s, "arg": arg, "enc": enc, "variant": var[-1] if new is not None else None})
             stats["events"] += 1
             stats["act:" + act] += 1
             if exc:
@@ -301,7 +324,7 @@ def negative_traces():
 
 # ------------------------------------------------------------------------------------------------ run
 def run(tier, seed):
-    t0 = time.time()
+    t0, c0, k0 = time.time(), time.process_time(), sum(resource.getrusage(resource.RUSAGE_CHILDREN)[:2])
     rng = random.Random(seed)
     g, hists, model_negs, steps = model_and_histories(tier)
     t_model = time.time() - t0
@@ -310,9 +333,6 @@ def run(tier, seed):
         raise lib.MachineryError(f"instance space collapsed: {len(insts)} instances, dropped recipes {dropped[:8]}")
     pools = make_pools(hists, bind_in_chains=tier != "quick")
     n_extra = 1 if tier == "quick" else 6
-    from collections import Counter
-    stats = Counter()
-    stats_d = {}
     texts = {}
     traces, meta, sem_cases, sem_meta = [], [], [], []
     used_hist = set()
@@ -333,26 +353,10 @@ def run(tier, seed):
             meta.append((inst, h, info))
             classes.add(tr["tbl"][tr["ev"][0]["pre"][0] - 1]["cls"])
             if inst.table is not None:
-                wpos = wire_positions(inst.table["labels"])
                 for k, i in enumerate(info):
-                    if i["new"] is None:
-                        continue
-                    try:
-                        b = encode_op(i["new"], wpos, S.M)
-                    except OffLattice as e:
-                        st["sem_unencodable"] += 1
-                        st.setdefault("sem_unencodable_why", str(e)[:100])
-                        continue
-                    except Exception as e:      # pylint: disable=broad-except
-                        st["sem_unencodable"] += 1
-                        st.setdefault("sem_unencodable_why", f"{type(e).__name__}: {e}"[:100])
-                        continue
-                    sem_cases.append({"n": inst.table["n"], "a": [dict(inst.table["recs"][i["variant"]])], "bs": [{"b": [b], "rel": "exact"}]})
-                    sem_meta.append((inst, h, k, i["act"]))
-    for k in ("new",):
-        for (_, _, info) in meta:
-            for i in info:
-                i.pop(k, None)
+                    if i["enc"] is not None:
+                        sem_cases.append({"n": inst.table["n"], "a": [dict(inst.table["recs"][i["variant"]])], "bs": [{"b": [i["enc"]], "rel": "exact"}]})
+                        sem_meta.append((inst, h, k, i["act"]))
     t_replay = time.time() - t0 - t_model
     # ---- negative controls (hand-written) appended to the batch
     negs = negative_traces()
@@ -403,8 +407,13 @@ def run(tier, seed):
             tbl = traces[ti]["tbl"]
             cname = tbl[e["pre"][0] - 1]["cls"].rsplit(".", 1)[-1]
             actname = e["act"] if e["act"] != "mutate" else "deep"
-            key = (f"{clause}:{cname}" if clause.split(":")[0] in ("deep", "rebind") else f"{actname}:{clause}:{cname}") + (
-                f":{e['exc']}" if clause == "raises" else "")
+            note = e.get("note", "")
+            if clause in ("deep:shared-cells", "mutation-leaks"):
+                key = f"deep:{clause.split(':')[-1]}:{note or 'unclassified'}:{cname}"
+            elif clause.split(":")[0] == "rebind":
+                key = f"{clause}:{cname}"
+            else:
+                key = f"{actname}:{clause}:{cname}" + (f":{e['exc']}" if clause == "raises" else "") + (f":{note}" if actname == "bind" and note else "")
             per_clause[f"{actname}:{clause}"] += 1
             if key in seen:
                 continue
@@ -506,11 +515,13 @@ def run(tier, seed):
            "events_by_action": {k[4:]: v for k, v in st.items() if k.startswith("act:")},
            "skipped": {k[8:]: v for k, v in st.items() if k.startswith("skipped:")}, "skip_reasons": st.get("skip_reasons", {}),
            "mutations": st["mutations"], "mutations_skipped_no_cell": st["mutate_skipped"],
-           "exact_semantics_cases_ok": n_sem_ok, "exact_semantics_distinct_pairs_decided_by_tlc": n_sem_tlc, "exact_semantics_unencodable": st["sem_unencodable"],
+           "exact_semantics_cases_ok": n_sem_ok, "exact_semantics_distinct_pairs_decided_by_tlc": n_sem_tlc, "exact_semantics_unencodable": st["sem_unencodable"], "exact_semantics_unencodable_why": st.get("sem_unencodable_why", {}),
            "failing_event_clauses": dict(per_clause), "model_drift": dict(drift_count),
            "negative_controls_rejected": nneg + n_sem_neg + model_negs,
            "exceptions_seen": st.get("exceptions", {}), "equal_raised": st.get("equal_raised", {}),
-           "timing_s": {"model+gen": round(t_model, 1), "space+replay": round(t_replay, 1), "total": round(time.time() - t0, 1)}}
+           "timing_s": {"model+gen": round(t_model, 1), "space+replay": round(t_replay, 1), "total": round(time.time() - t0, 1),
+                        "python_cpu": round(time.process_time() - c0, 1),
+                        "tlc_cpu": round(sum(resource.getrusage(resource.RUSAGE_CHILDREN)[:2]) - k0, 1)}}
     return CheckResult(coverage=cov, violations=viol, assumptions=[
         "content is read through the public accessors (class, wires, data, hyperparameters / bound arguments); list vs tuple and the "
         "interface of a value after capture evaluation are not attributes",
